@@ -1878,6 +1878,46 @@ func ruleIntrospectionSources(r *Run) {
 			}
 		}
 	}
+	// the planning context built by a constructor of the module (`planner.NewPlanningContext(…,
+	// g.schema, …)`): the schema it stores is its parameter, judged at each call on the request path
+	reach := r.P.CG.Reachable([]*ssa.Function{h}, nil)
+	for _, fn := range r.P.Funcs {
+		if !reach[fn] || topFn(fn).Pkg == nil || topFn(fn).Pkg.Pkg.Path() == modPath {
+			continue
+		}
+		for _, ins := range allInstrs(fn) {
+			st, ok := ins.(*ssa.Store)
+			if !ok {
+				continue
+			}
+			fa, ok := st.Addr.(*ssa.FieldAddr)
+			if !ok || fieldOf(fa) == nil || fieldOf(fa).Name() != "Schema" || namedOf(fa.X.Type()) != plannerPkg+".PlanningContext" {
+				continue
+			}
+			param, isParam := unwrap(st.Val).(*ssa.Parameter)
+			pi := -1
+			if isParam {
+				for i, p := range fn.Params {
+					if p == param {
+						pi = i
+					}
+				}
+			}
+			if pi < 0 {
+				k++
+				r.Bad("R3b", fnName(fn), "PlanningContext.Schema", r.P.pos(st.Pos()), "a planning context on the request path is given a schema the rule cannot trace to Gateway.schema")
+				continue
+			}
+			for _, e := range r.P.CG.In[fn] {
+				if e.Kind != "static" || !reach[e.Caller] || pi >= len(e.Site.Common().Args) {
+					continue
+				}
+				k++
+				r.Check(isGatewaySchemaLoad(e.Site.Common().Args[pi]), "R3b", fnName(e.Caller), "PlanningContext.Schema through "+fnName(fn), r.P.pos(e.Site.Pos()),
+					"planning reads the same Gateway.schema field", "the planner is given a schema other than Gateway.schema")
+			}
+		}
+	}
 	r.AtLeast("R3b", "schema consumers on the request path", k, 5)
 }
 
